@@ -259,6 +259,42 @@ def extract_layout(text, rust_name):
         (eval_size(size, 4), eval_size(align, 4), eval_size(roff, 4)), (eval_size(size, 8), eval_size(align, 8), eval_size(roff, 8))
 
 
+def wrapper_shape(text, rust_name):
+    """shape facts of the generated async export wrapper that the model `ExportGlue.Fut` relies on: the guard is
+    created first, the user function is awaited exactly once before the guard is forgotten, `forget()` is
+    immediately followed by the single task.return call, nothing can leave the block in between"""
+    m = re.search(r"pub unsafe fn _export_%s_cabi<" % re.escape(rust_name), text)
+    if not m: raise ValueError(f"_export_{rust_name}_cabi not found")
+    i = text.index("start_task(async move {", m.start())
+    end = text.index("pub unsafe fn __callback_%s(" % rust_name, i)
+    block = text[i + len("start_task(async move {"):end]
+    guard_first = bool(re.match(r"\s*let _task_cancel = [\w:]+::TaskCancelOnDrop::new\(\);", block))
+    awaits = [x.start() for x in re.finditer(r"\.await\b", block)]
+    forgets = [x.start() for x in re.finditer(r"_task_cancel\.forget\(\);", block)]
+    mentions = len(re.findall(r"_task_cancel\b", block))
+    after = block[forgets[0] + len("_task_cancel.forget();"):] if forgets else ""
+    ret_call = re.match(r"\s*(wit_import\d+)\(", after)
+    decls = len(re.findall(r'#\[link_name = "\[task-return\]', block))
+    code = re.sub(r'"[^"]*"', '""', block[:forgets[0]]) if forgets else ""
+    early = len(re.findall(r"\breturn\b|\?\s*;", code)) if forgets else -1
+    user_await = False
+    if awaits:
+        k = block.rfind("T_::", 0, awaits[0])
+        if k >= 0:
+            o = block.index("(", k)
+            try:
+                user_await = block[matching(block, o) + 1:].lstrip().startswith(".await")
+            except ValueError:
+                user_await = False
+    return (f"guard-first={int(guard_first)} awaits={len(awaits)} user-await={int(user_await)} forgets={len(forgets)} "
+            f"await-before-forget={int(bool(awaits) and bool(forgets) and awaits[-1] < forgets[0])} guard-mentions={mentions} "
+            f"forget-then-task-return={int(bool(ret_call))} task-return-decls={decls} early-exits={early}")
+
+
+WRAPPER_SHAPE_MODEL = ("guard-first=1 awaits=1 user-await=1 forgets=1 await-before-forget=1 guard-mentions=2 "
+                       "forget-then-task-return=1 task-return-decls=1 early-exits=0")
+
+
 # ---------------------------------------------------------------------------------- schedules
 
 IMPORT_SCHEDULES = {
@@ -653,6 +689,8 @@ def run(c):
     lay_req, lay_impl, lay_model = [], [], []
     sig_req, sig_impl, sig_model = [], [], []
     led_req, led_sync, led_async = [], [], []
+    shp_req, shp_impl, shp_model = [], [], []
+    tok_req, tok_impl, tok_model = [], [], []
     hproc = bc.Proc([ahost])
     shrinks_left = [3]
 
@@ -773,6 +811,13 @@ def run(c):
                                 violation("abi-layout-violates-spec", f"abi_layout / results_offset of the generated async import do not satisfy the canonical ABI's requirements at pointer width {pw}",
                                           k, ma, {"size": l[0], "align": l[1], "results_offset": l[2], "pointer_width": pw})
                         cov["indirect_params_async_import"] += int(ma["indirect_params"])
+                    else:
+                        # the shape of the generated wrapper that the model of its root future (ExportGlue.Fut) relies on
+                        try:
+                            shape = wrapper_shape(atext, rust_ident(ma["name"]))
+                        except Exception as e:
+                            shape = f"unrecognised: {e}"
+                        shp_req.append(ma["key"]); shp_impl.append(shape); shp_model.append(WRAPPER_SHAPE_MODEL)
                     handle = handle_supplier(c.rng)
                     vals, ret = bc.gen_vals(c.rng, ma, handle)
                     rw = c.replay["witness"] if replay_fn else None
@@ -818,6 +863,12 @@ def run(c):
                         if mem or nm not in ("finish", "returns-immediately"):
                             c.nontrivial.add(req)
                         fs = scenario_findings(kind, ma, o, so, async_imports)
+                        if kind == "export" and "error" not in o and all(isinstance(st, str) for st in spec[0]) and not o.get("forced_cancel"):
+                            # model of the code (generated wrapper || executor, Async/ExportGlue.lean) vs the real observations
+                            ca = spec[1]
+                            tok_req.append(f"yields={len(spec[0])} cancel_at={ca}")
+                            tok_impl.append(o["tokens"])
+                            tok_model.append(hproc.rq(f"predict|{len(spec[0])}|{'-' if ca is None else ca}") or "m_c08 died")
                         svals, sret, shrunk = vals, ret, False
                         new = [f for f in fs if f[0] not in known_classes]
                         if new and shrinks_left[0] > 0 and not any(isinstance(st, tuple) for st in (spec[0] if kind == "export" else [])):
@@ -876,6 +927,8 @@ def run(c):
     c.compare("abi-layout(generated text vs model, both pointer widths)", lay_req, lay_impl, lay_model)
     c.compare("wasm-signature(async variants)", sig_req, sig_impl, sig_model)
     c.compare("ledger-summary(sync vs async binding)", led_req, led_sync, led_async, nontrivial=lambda r, o: False)
+    c.compare("export-wrapper-shape(generated text vs ExportGlue.Fut)", shp_req, shp_impl, shp_model, nontrivial=lambda r, o: False)
+    c.compare("export-observations(real run vs ExportGlue model)", tok_req, tok_impl, tok_model, nontrivial=lambda r, o: False)
     cov["worlds"] = {"cases": len(cases), "corpus": len(corpus), "seeded": n_seeded, "known_findings_corpus": len(known),
                      "items_compiled": ncompiled, "items_dropped_not_compiling": ndropped}
     cov["type_constructors_generated"] = stats
